@@ -28,3 +28,11 @@ Qed.
 
 Example ex_sym : compatible (S ">x1") (S "<x1") true = Ok true /\ compatible (S "<x1") (S ">x1") true = Ok true.
 Proof. split; reflexivity. Qed.
+
+(** a directional descriptor never pairs with one of its own direction (generated code, both conventions) *)
+Theorem compatible_same_direction legacy k t t' : k = ">" \/ k = "<" ->
+  compatible (k :: t) (k :: t') legacy = Ok false.
+Proof.
+  intros [-> | ->]; rewrite compatible_spec; f_equal; unfold Compat, compl; destruct legacy; cbn;
+    rewrite ?andb_false_r; reflexivity.
+Qed.
